@@ -10,16 +10,36 @@
     J3  nested snapshots: reverting to an inner snapshot leaves the outer one valid, and reverting
         to the outer one afterwards restores its state — for every pair of mutation sequences;
     E1  `keybytesToHex` is injective (two byte keys never share a trie path);
-    E2  hex-prefix (compact) encoding decodes back to the key for every even-length key without
-        terminator (the extension-node case; the odd and the terminated cases are checked on
-        examples only).
+    E2  hex-prefix (compact) encoding decodes back to the key for EVERY key a short node can carry
+        (odd/even length, with/without terminator), hence is injective on them;
+    M1  every update (write; delete = write of the empty value) keeps the trie invariant `TrieInv`
+        (node shapes as trie.go maintains them: short nodes have non-empty keys and end in a value
+        or a branch, values sit only where a key ends, every branch has at least two children);
+    M2/M3  after an update the key reads as written (nothing, if deleted), every other key as before;
+    M4  REFINEMENT: for every sequence of writes and deletes from the empty trie, `lookup` equals the
+        lookup of the simple map the sequence describes;
+    M5  HISTORY INDEPENDENCE: two sequences - any lengths, any order, any overwritten or deleted
+        intermediate values - that describe the same map build the SAME trie, node for node
+        (canonical form: a trie that satisfies the invariant is determined by its content);
+    M6  hence the same root hash, for every hash function;
+    M7  MERKLE PROOFS: `VerifyProof` (model: walk over DECODED RLP items, hash lookups in the proof
+        set) run on what `Prove` returns for a key yields exactly the stored value or its absence,
+        for every trie the application can build and every 32-byte hash function - or exhibits a
+        hash collision.
+    J4-J6  the per-block commit with deleteEmptyObjects.
   NOT proved (decided per run by the engine, three ways: in-tree code = Lean model = go-ethereum
-  v1.8.27): that the root is a function of the content alone (history independence), get/insert/
-  delete agreement with a map, commit/reopen, Merkle proofs. The hash itself (Keccak-256) is
-  computed by the driver and is not the subject of any theorem.
+  v1.8.27): commit/reopen through the node database (the model keeps the tree in memory), the
+  secure trie's key hashing, the account/storage layering of the state root. The hash itself
+  (Keccak-256) is computed by the driver and is a parameter of every theorem (M6, M7 hold for any
+  hash function; M7 up to collisions). The theorems are about Model/Trie.lean and
+  Model/TrieProof.lean - the definitions the compiled driver runs against the Go code on every op.
 -/
 import AnnVerif.Model.StateJournal
 import AnnVerif.Model.Trie
+import AnnVerif.Lemmas.TrieCanon
+import AnnVerif.Lemmas.TrieCompact
+import AnnVerif.Lemmas.TrieProof
+import AnnVerif.Lemmas.TrieSmall
 namespace AnnVerif.C11
 open AnnVerif AnnVerif.StateJournal
 
@@ -239,52 +259,20 @@ theorem keybytesToHex_injective (a b : Bytes) (h : Trie.keybytesToHex a = Trie.k
         exact UInt8.toNat_inj.mp e
       rw [hxy, ih r h3]
 
-/-! ### E2: hex-prefix encoding -/
-
-def unpackBytes (bs : Bytes) : List Nat := (bs.map fun b => [b.toNat / 16, b.toNat % 16]).flatten
-
-theorem unpack_pack : ∀ (n : Nat) (hex : List Nat), hex.length = 2 * n → (∀ x ∈ hex, x < 16) →
-    unpackBytes (Trie.hexToCompact.pack hex) = hex := by
-  intro n
-  induction n with
-  | zero => intro hex hl _; have : hex = [] := List.eq_nil_of_length_eq_zero (by omega); subst this; rfl
-  | succ n ih =>
-    intro hex hl hlt
-    match hex, hl with
-    | a :: b :: r, hl =>
-      have ha : a < 16 := hlt a (by simp)
-      have hb : b < 16 := hlt b (by simp)
-      have hr := ih r (by simp at hl; omega) (fun x hx => hlt x (by simp [hx]))
-      simp only [Trie.hexToCompact.pack, unpackBytes, List.map_cons, List.flatten_cons]
-      have hv : (UInt8.ofNat (a * 16 + b)).toNat = a * 16 + b := by
-        rw [UInt8.toNat_ofNat']; omega
-      rw [hv]
-      have h1 : (a * 16 + b) / 16 = a := by omega
-      have h2 : (a * 16 + b) % 16 = b := by omega
-      rw [h1, h2]
-      show a :: b :: unpackBytes (Trie.hexToCompact.pack r) = a :: b :: r
-      rw [hr]
+/-! ### E2: hex-prefix encoding (proofs in Lemmas/TrieCompact.lean) -/
 
 /-- E2 for keys without terminator and of even length (the extension-node case) -/
 theorem compact_roundtrip_even (hex : List Nat) (n : Nat) (hl : hex.length = 2 * n) (hlt : ∀ x ∈ hex, x < 16) :
-    Trie.compactToHex (Trie.hexToCompact hex) = hex := by
-  have hnt : Trie.hasTerm hex = false := by
-    unfold Trie.hasTerm
-    cases hg : hex.getLast? with
-    | none => rfl
-    | some x =>
-      have := hlt x (List.mem_of_getLast? hg)
-      simp; omega
-  unfold Trie.hexToCompact
-  simp only [hnt, Bool.false_eq_true, if_false]
-  have hev : ¬ hex.length % 2 = 1 := by omega
-  rw [if_neg hev]
-  unfold Trie.compactToHex
-  simp only
-  have hz : (UInt8.ofNat (2 * 0 * 16)).toNat = 0 := by decide
-  rw [hz]
-  simp only [Nat.zero_div, Nat.zero_mod, Nat.zero_ne_one, if_false, ge_iff_le, Nat.not_succ_le_zero]
-  exact unpack_pack n hex hl hlt
+    Trie.compactToHex (Trie.hexToCompact hex) = hex := Trie.compact_roundtrip_even hex n hl hlt
+
+/-- E2, complete: hex-prefix encoding decodes back to the key for EVERY key a well-formed trie can
+    hold in a short node - odd or even length, with or without the terminator -/
+theorem compact_roundtrip (k : Trie.Key) (h : Trie.TermKey k ∨ Trie.ExtKey k) :
+    Trie.compactToHex (Trie.hexToCompact k) = k := Trie.compact_roundtrip k h
+
+/-- hence two different keys of a well-formed trie never share a compact encoding -/
+theorem hexToCompact_injective (a b : Trie.Key) (ha : Trie.TermKey a ∨ Trie.ExtKey a) (hb : Trie.TermKey b ∨ Trie.ExtKey b)
+    (h : Trie.hexToCompact a = Trie.hexToCompact b) : a = b := Trie.hexToCompact_injective a b ha hb h
 
 example : Trie.compactToHex (Trie.hexToCompact [1, 2, 3, 16]) = [1, 2, 3, 16] ∧
           Trie.compactToHex (Trie.hexToCompact [1, 2, 16]) = [1, 2, 16] ∧
@@ -317,5 +305,205 @@ theorem touched_account_commit (d : StateJournal.DB) (persisted : StateJournal.A
 theorem commit_is_clean (d : StateJournal.DB) (persisted : StateJournal.Accounts) :
     (StateJournal.commitDel d persisted).journal = [] ∧ (StateJournal.commitDel d persisted).snaps = [] ∧
     (StateJournal.commitDel d persisted).objDirty = [] := ⟨rfl, rfl, rfl⟩
+
+/-! ### M1-M4: the trie is a finite map -/
+
+open AnnVerif.Trie in
+/-- the invariant of every trie the application builds: keys are laid out nibble by nibble, short
+    nodes carry non-empty keys and end in a value or a branch, branches have at least two children -/
+def TrieInv (t : Trie.Node) : Prop := WF t ∧ Br t
+
+theorem termKey_keybytesToHex (b : Bytes) : Trie.TermKey (Trie.keybytesToHex b) := by
+  refine ⟨(b.map fun x => [x.toNat / 16, x.toNat % 16]).flatten, rfl, ?_⟩
+  intro x hx
+  simp only [List.mem_flatten, List.mem_map] at hx
+  obtain ⟨l, ⟨y, _, rfl⟩, hx⟩ := hx
+  simp at hx
+  have := y.toNat_lt
+  rcases hx with rfl | rfl <;> omega
+
+theorem lookup_eq_getN {t : Trie.Node} (h : TrieInv t) (key : Bytes) :
+    Trie.lookup t key = Trie.getN t (Trie.keybytesToHex key) := by
+  unfold Trie.lookup
+  exact Trie.get_eq_getN (Or.inl h.1) (by omega)
+
+/-- M1: an update (a write, or a delete when the value is empty) keeps the invariant -/
+theorem update_keeps_invariant (t : Trie.Node) (key value : Bytes) (h : TrieInv t) :
+    TrieInv (Trie.update t key value) := by
+  unfold Trie.update
+  have hk := termKey_keybytesToHex key
+  split
+  · obtain ⟨d1, d2, _, _⟩ := Trie.delete_ok _ t _ h.1 h.2 hk (by omega : _ < (Trie.keybytesToHex key).length + 2)
+    exact ⟨d1, d2⟩
+  · exact ⟨Trie.insert_wf _ t _ value h.1 hk (by omega), Trie.insert_br _ t _ value h.1 h.2 hk (by omega)⟩
+
+/-- M2: after an update the key reads as the value written (nothing, if it was deleted) -/
+theorem lookup_update_same (t : Trie.Node) (key value : Bytes) (h : TrieInv t) :
+    Trie.lookup (Trie.update t key value) key = if value.isEmpty then none else some value := by
+  rw [lookup_eq_getN (update_keeps_invariant t key value h)]
+  unfold Trie.update
+  have hk := termKey_keybytesToHex key
+  split
+  · exact (Trie.delete_ok _ t _ h.1 h.2 hk (by omega : _ < (Trie.keybytesToHex key).length + 2)).2.2.1
+  · exact Trie.getN_insert_same _ t _ value h.1 hk (by omega)
+
+/-- M3: every other key reads as before -/
+theorem lookup_update_other (t : Trie.Node) (key value q : Bytes) (h : TrieInv t) (hq : q ≠ key) :
+    Trie.lookup (Trie.update t key value) q = Trie.lookup t q := by
+  rw [lookup_eq_getN (update_keeps_invariant t key value h), lookup_eq_getN h]
+  have hk := termKey_keybytesToHex key
+  have hk' := termKey_keybytesToHex q
+  have hne : Trie.keybytesToHex q ≠ Trie.keybytesToHex key := fun e => hq (keybytesToHex_injective _ _ e)
+  unfold Trie.update
+  split
+  · exact (Trie.delete_ok _ t _ h.1 h.2 hk (by omega : _ < (Trie.keybytesToHex key).length + 2)).2.2.2 _ hk' hne
+  · exact Trie.getN_insert_other _ t _ value _ h.1 hk hk' hne (by omega)
+
+/-- the map an update sequence describes -/
+def mapUpdate (m : Bytes → Option Bytes) (w : Bytes × Bytes) : Bytes → Option Bytes :=
+  fun q => if q = w.1 then (if w.2.isEmpty then none else some w.2) else m q
+
+/-- M4 (refinement): for EVERY sequence of writes and deletes, starting from the empty trie, the trie
+    holds the invariant and reads, for every key, exactly what the simple map reads -/
+theorem trie_refines_map (ws : List (Bytes × Bytes)) :
+    TrieInv (ws.foldl (fun t w => Trie.update t w.1 w.2) .empty) ∧
+    ∀ q, Trie.lookup (ws.foldl (fun t w => Trie.update t w.1 w.2) .empty) q =
+      ws.foldl mapUpdate (fun _ => none) q := by
+  suffices H : ∀ (ws : List (Bytes × Bytes)) (t : Trie.Node) (m : Bytes → Option Bytes), TrieInv t →
+      (∀ q, Trie.lookup t q = m q) →
+      TrieInv (ws.foldl (fun t w => Trie.update t w.1 w.2) t) ∧
+      ∀ q, Trie.lookup (ws.foldl (fun t w => Trie.update t w.1 w.2) t) q = ws.foldl mapUpdate m q by
+    refine H ws .empty _ ⟨by simp [Trie.WF], by simp [Trie.Br]⟩ ?_
+    intro q; rw [lookup_eq_getN ⟨by simp [Trie.WF], by simp [Trie.Br]⟩]; exact Trie.getN_empty _
+  intro ws
+  induction ws with
+  | nil => intro t m ht hm; exact ⟨ht, hm⟩
+  | cons w ws ih =>
+    intro t m ht hm
+    simp only [List.foldl_cons]
+    apply ih _ _ (update_keeps_invariant t w.1 w.2 ht)
+    intro q
+    unfold mapUpdate
+    by_cases hq : q = w.1
+    · subst hq; rw [lookup_update_same _ _ _ ht, if_pos rfl]
+    · rw [lookup_update_other _ _ _ _ ht hq, if_neg hq]; exact hm q
+
+/-- the trie an update sequence builds -/
+def build (ws : List (Bytes × Bytes)) : Trie.Node := ws.foldl (fun t w => Trie.update t w.1 w.2) .empty
+
+theorem update_other_hex (t : Trie.Node) (key value : Bytes) (k : Trie.Key) (h : TrieInv t)
+    (hk : Trie.TermKey k) (hne : k ≠ Trie.keybytesToHex key) :
+    Trie.getN (Trie.update t key value) k = Trie.getN t k := by
+  have hkey := termKey_keybytesToHex key
+  unfold Trie.update
+  split
+  · exact (Trie.delete_ok _ t _ h.1 h.2 hkey (by omega : _ < (Trie.keybytesToHex key).length + 2)).2.2.2 _ hk hne
+  · exact Trie.getN_insert_other _ t _ value _ h.1 hkey hk hne (by omega)
+
+/-- a path that is not the path of a byte key holds nothing -/
+theorem build_only_byte_keys (ws : List (Bytes × Bytes)) (k : Trie.Key) (hk : Trie.TermKey k)
+    (hni : ∀ q, k ≠ Trie.keybytesToHex q) : Trie.getN (build ws) k = none := by
+  suffices H : ∀ (ws : List (Bytes × Bytes)) (t : Trie.Node), TrieInv t → Trie.getN t k = none →
+      Trie.getN (ws.foldl (fun t w => Trie.update t w.1 w.2) t) k = none from
+    H ws .empty ⟨by simp [Trie.WF], by simp [Trie.Br]⟩ (Trie.getN_empty _)
+  intro ws
+  induction ws with
+  | nil => intro t _ h; exact h
+  | cons w ws ih =>
+    intro t ht h
+    simp only [List.foldl_cons]
+    exact ih _ (update_keeps_invariant t w.1 w.2 ht) (by rw [update_other_hex t w.1 w.2 k ht hk (hni w.1)]; exact h)
+
+/-- M5 (history independence): two sequences of writes and deletes - of any lengths, in any order,
+    with any overwritten or deleted intermediate values - that describe the same map build the SAME
+    trie, node for node -/
+theorem trie_is_a_function_of_its_content (ws1 ws2 : List (Bytes × Bytes))
+    (h : ∀ q, ws1.foldl mapUpdate (fun _ => none) q = ws2.foldl mapUpdate (fun _ => none) q) :
+    build ws1 = build ws2 := by
+  obtain ⟨i1, g1⟩ := trie_refines_map ws1
+  obtain ⟨i2, g2⟩ := trie_refines_map ws2
+  refine Trie.canon i1.1 i1.2 i2.1 i2.2 ?_
+  intro k hk
+  by_cases hex : ∃ q, k = Trie.keybytesToHex q
+  · obtain ⟨q, rfl⟩ := hex
+    have e1 := lookup_eq_getN i1 q
+    have e2 := lookup_eq_getN i2 q
+    show Trie.getN (build ws1) _ = Trie.getN (build ws2) _
+    unfold build
+    rw [← e1, ← e2, g1 q, g2 q, h q]
+  · have hni : ∀ q, k ≠ Trie.keybytesToHex q := fun q e => hex ⟨q, e⟩
+    show Trie.getN (build ws1) k = Trie.getN (build ws2) k
+    rw [build_only_byte_keys ws1 k hk hni, build_only_byte_keys ws2 k hk hni]
+
+/-- M6: hence the same root hash, whatever the hash function -/
+theorem root_is_a_function_of_the_content (H : Bytes → Bytes) (ws1 ws2 : List (Bytes × Bytes))
+    (h : ∀ q, ws1.foldl mapUpdate (fun _ => none) q = ws2.foldl mapUpdate (fun _ => none) q) :
+    Trie.rootHash H (build ws1) = Trie.rootHash H (build ws2) := by
+  rw [trie_is_a_function_of_its_content ws1 ws2 h]
+
+/-- not vacuous: two different histories of the same content (other order, an overwrite, a key that
+    is written and deleted again) -/
+example :
+    let ws1 : List (Bytes × Bytes) := [([0x12, 0x34], [1]), ([0x12, 0x35], [2]), ([0x77], [3])]
+    let ws2 : List (Bytes × Bytes) := [([0x77], [9]), ([0x55], [5]), ([0x12, 0x35], [2]), ([0x77], [3]), ([0x55], []), ([0x12, 0x34], [1])]
+    build ws1 = build ws2 ∧ (build ws1).isEmpty = false := by
+  exact ⟨by rfl, by rfl⟩
+
+/-! ### M7: Merkle proofs -/
+
+theorem map_never_reads_empty (ws : List (Bytes × Bytes)) (m : Bytes → Option Bytes) (q : Bytes)
+    (h : m q ≠ some []) : ws.foldl mapUpdate m q ≠ some [] := by
+  induction ws generalizing m with
+  | nil => exact h
+  | cons w ws ih =>
+    simp only [List.foldl_cons]
+    apply ih
+    unfold mapUpdate
+    split
+    · split
+      · simp
+      · rename_i hv
+        intro he
+        have : w.2 = [] := by injection he
+        rw [this] at hv; simp at hv
+    · exact h
+
+/-- M7: for EVERY trie the application can build, every key (present or absent) and every hash
+    function with 32-byte output: `VerifyProof` run against the root hash on the proof `Prove`
+    returns for the key yields exactly what the trie holds for it - the value, or its absence -
+    unless the hash function collides (two different inputs, one output).
+    `SmallT`: every node's encoding fits 64-bit sizes (the RLP decoder's domain). -/
+theorem merkle_proof_verifies (H : Bytes → Bytes) (Hlen : ∀ x, (H x).length = 32) (ws : List (Bytes × Bytes))
+    (q : Bytes) (hne : (build ws).isEmpty = false) (hs : Trie.SmallT H (build ws)) :
+    Trie.verify H (Trie.prove H (build ws) (Trie.keybytesToHex q)) ((Trie.keybytesToHex q).length + 1)
+      (Trie.rootHash H (build ws)) (Trie.keybytesToHex q) = some (Trie.lookup (build ws) q) ∨ Trie.Coll H := by
+  obtain ⟨inv, g⟩ := trie_refines_map ws
+  have hl : Trie.lookup (build ws) q = Trie.getN (build ws) (Trie.keybytesToHex q) := lookup_eq_getN inv q
+  have hnv : Trie.getN (build ws) (Trie.keybytesToHex q) ≠ some [] := by
+    rw [← hl]; unfold build; rw [g q]
+    exact map_never_reads_empty ws _ q (by simp)
+  rw [hl]
+  exact Trie.verify_prove H Hlen (build ws) _ inv.1 hne (termKey_keybytesToHex q) hs hnv
+
+/-- not vacuous: a trie with nodes stored by hash (values of 40 and 33 bytes) meets the hypotheses,
+    its proofs have several elements, and they verify for a present and for an absent key (a toy
+    32-byte "hash" keeps the evaluation small; the theorem is for every hash function) -/
+example :
+    let toyH : Bytes → Bytes := fun b => (b ++ List.replicate 32 0).take 32
+    let ws : List (Bytes × Bytes) := [([0x12, 0x34], List.replicate 40 7), ([0x12, 0x35], [2]), ([0x77], List.replicate 33 9)]
+    (build ws).isEmpty = false ∧ Trie.SmallT toyH (build ws) ∧
+    (Trie.prove toyH (build ws) (Trie.keybytesToHex [0x12, 0x34])).length = 4 ∧
+    Trie.verify toyH (Trie.prove toyH (build ws) (Trie.keybytesToHex [0x12, 0x34])) 6 (Trie.rootHash toyH (build ws))
+      (Trie.keybytesToHex [0x12, 0x34]) = some (some (List.replicate 40 7)) ∧
+    Trie.verify toyH (Trie.prove toyH (build ws) (Trie.keybytesToHex [0x12, 0x36])) 6 (Trie.rootHash toyH (build ws))
+      (Trie.keybytesToHex [0x12, 0x36]) = some none := by
+  refine ⟨by rfl, Trie.smallTB_sound _ _ (by decide), by decide, by decide, by decide⟩
+
+/-- not vacuous: three writes (two sharing a nibble prefix), one overwrite and one delete -/
+example :
+    let t := [([0x12, 0x34], [1]), ([0x12, 0x35], [2]), ([0x77], [3]), ([0x12, 0x34], [4]), ([0x77], [])].foldl
+      (fun t (w : Bytes × Bytes) => Trie.update t w.1 w.2) Trie.Node.empty
+    Trie.lookup t [0x12, 0x34] = some [4] ∧ Trie.lookup t [0x12, 0x35] = some [2] ∧ Trie.lookup t [0x77] = none := by
+  decide
 
 end AnnVerif.C11
